@@ -2,14 +2,18 @@
    Depends on models only. *)
 From Coq Require Import QArith Qabs.
 From CKT Require Import Common.Base Common.Circ Model.Decompose Model.Measurement Model.ResetPasses
-  Model.Weights Model.Experiments.
+  Model.Experiments.
 Close Scope Q_scope.
 
 (* short constructors for the case literals *)
 Definition MC := mkMC.
 Definition OG := mkOG.
-Definition E := EXACT.
-Definition S' := SAMPLED.
+Definition E := KExact.
+Definition S' := KSampled.
+Definition Fin := NFin.
+Definition PInf := NPosInf.
+Definition NInf := NNegInf.
+Definition NaN := NNaN.
 
 Definition regs_beq : list (bool * list nat) -> list (bool * list nat) -> bool :=
   list_beq (pair_beq Bool.eqb (list_beq Nat.eqb)).
@@ -39,9 +43,9 @@ Definition mc_beq_f2 (model impl : mcirc) : bool :=
   extra_resets0 (S (length (mdata impl) + length (mdata model))) (mdata impl) (mdata model).
 
 (* coefficients: same length, same WeightType, |model - impl| <= tol *)
-Definition coeff_close (tol : Q) (m e : Q * wtype) : bool :=
-  wtype_eqb (snd m) (snd e) && Qle_bool (Qabs (fst m - fst e)) tol.
-Definition coeffs_close (tol : Q) : list (Q * wtype) -> list (Q * wtype) -> bool := list_beq (coeff_close tol).
+Definition coeff_close (tol : Q) (m e : Q * wkind) : bool :=
+  wkind_eqb (snd m) (snd e) && Qle_bool (Qabs (fst m - fst e)) tol.
+Definition coeffs_close (tol : Q) : list (Q * wkind) -> list (Q * wkind) -> bool := list_beq (coeff_close tol).
 
 Definition exps_beq (cmp : mcirc -> mcirc -> bool) (m e : experiments) : bool :=
   match m, e with
@@ -55,8 +59,8 @@ Definition exps_beq (cmp : mcirc -> mcirc -> bool) (m e : experiments) : bool :=
    returned circuit are named observable_measurements and qpd_measurements; the coefficient list holds floats
    paired with WeightType members; inputs untouched. *)
 Definition c05_case : Type :=
-  nat * nat * benv * list (list Q) * circuits_arg * observables_arg * num * wdict *
-  res (experiments * list (Q * wtype)) * Q * bool.
+  nat * nat * benv * list (list Q) * circuits_arg * observables_arg * nsamples * sdict *
+  res (experiments * list (Q * wkind)) * Q * bool.
 
 Definition chk_with (cmp : mcirc -> mcirc -> bool) (c : c05_case) : bool :=
   let '(gh, gsx, env, cenv, circuits, observables, N, weights, e, tol, side) := c in
